@@ -345,6 +345,10 @@ type outcome struct {
 	admitted bool
 	sleep    int64
 	b0, e0   int // logical instants of call and return (order of these events over all callers)
+	// aHi: the latest clock reading the caller made before its first visible access to the pass timestamp (= arrive
+	// unless the clock ticked between the monitor's reading and the checker's, which needs a yield point in between:
+	// only when more than the checker's own file is instrumented)
+	aHi int64
 }
 
 func coopEngine() {
@@ -355,6 +359,12 @@ func coopEngine() {
 	// sleeps requested per worker
 	sleeps := map[int]int64{}
 	clk.OnSleep = func(d time.Duration) { sleeps[coop.Me()] += int64(d) }
+	lastRead, frozen := map[int]int64{}, map[int]bool{}
+	clk.OnRead = func() {
+		if w := coop.Me(); w >= 0 && !frozen[w] {
+			lastRead[w] = int64(clk.Ns())
+		}
+	}
 	{ // observability calibration: the throttling checker must reach the scheduler through the atomic shim
 		c0 := atomic.LoadUint64(&vatomic.Count)
 		load("c10-calib", ruleDesc{Thr: 10, Interval: 1000, MaxQ: 100})
@@ -381,6 +391,7 @@ func coopEngine() {
 			if os.Getenv("VERIF_DEBUG") != "" {
 				fmt.Fprintf(os.Stderr, "w%d %s -> %d ok=%v now=%d\n", coop.Me(), op, v, ok, clk.Ns())
 			}
+			frozen[coop.Me()] = true
 			switch op {
 			case "LoadInt64", "AddInt64", "StoreInt64":
 				vals = append(vals, v)
@@ -394,7 +405,7 @@ func coopEngine() {
 			// sequential warm-up pass (outside the scheduler)
 			e, b := sentinel.Entry(res, sentinel.WithSlotChain(chain))
 			if b == nil {
-				all = append(all, outcome{w: -1, batch: 1, arrive: int64(clk.Ns()), admitted: true, b0: -2, e0: -1})
+				all = append(all, outcome{w: -1, batch: 1, arrive: int64(clk.Ns()), aHi: int64(clk.Ns()), admitted: true, b0: -2, e0: -1})
 				e.Exit()
 			}
 			clk.AddNs(uint64(c.LastAgo))
@@ -413,8 +424,13 @@ func coopEngine() {
 					o := outcome{w: w, batch: cl.Batch, arrive: int64(clk.Ns()), beg: len(vals), b0: evSeq}
 					evSeq++
 					sleeps[w] = 0
+					lastRead[w], frozen[w] = o.arrive, false
 					e, b := sentinel.Entry(res, sentinel.WithSlotChain(chain), sentinel.WithBatchCount(cl.Batch))
 					o.end = len(vals)
+					o.aHi = lastRead[w]
+					if o.aHi < o.arrive {
+						o.aHi = o.arrive
+					}
 					o.e0 = evSeq
 					evSeq++
 					o.admitted = b == nil
@@ -496,8 +512,8 @@ func coopEngine() {
 					if o2.w == o.w && o2.b0 == o.b0 {
 						continue
 					}
-					if o2.b0 < o.e0 && o2.admitted && o2.arrive+o2.sleep > base {
-						base = o2.arrive + o2.sleep
+					if o2.b0 < o.e0 && o2.admitted && o2.aHi+o2.sleep > base {
+						base = o2.aHi + o2.sleep
 					}
 					if o2.b0 < o.e0 && o2.e0 > o.b0 && !o2.admitted {
 						transient += c.Rule.cost(o2.batch)
@@ -515,7 +531,8 @@ func coopEngine() {
 		for k := 1; k < len(adm); k++ {
 			p0, p1 := adm[k-1].arrive+adm[k-1].sleep, adm[k].arrive+adm[k].sleep
 			cost := c.Rule.cost(adm[k].batch)
-			if p1-p0 < cost {
+			// (with an uncertain arrival reading the pair is judged in the order and at the distance most favourable to it)
+			if adm[k].aHi+adm[k].sleep-p0 < cost && adm[k-1].aHi+adm[k-1].sleep-p1 < c.Rule.cost(adm[k-1].batch) {
 				// equal pass times: either order must satisfy the spacing of the later one
 				dbg := ""
 				base0 := all[0].arrive
